@@ -333,3 +333,51 @@ LEVEL_TEXT = ("Deductive: each style encoder against the wire form of the OpenAP
               "arrays/objects explored up to a small size (labelled bounded). URL composition and the requests library are trusted. Level other.")
 LEVEL_NOTE = "Trusted: requests (E4), str.join/split inversion and urllib (E5), pyvc semantics (E9)."
 TECHNIQUE = "contract-based deductive verification: AST->z3 (strings) VC generation on the real style encoders against a decoder-table specification (pyvc)"
+
+
+BOUNDED = []
+
+
+def prepare_url_round_trip(tier, seed):
+    """Bounded native enumeration of the URL composition: base URLs (with / without trailing slash, with a base path, with a port) x path templates x path-parameter values
+    of length <= 2 over a hostile alphabet (reserved characters, '.', '..', '%', '+', space, non-ASCII, braces, newline). The value goes through the real quote_all and the
+    real prepare_url; the URL must be EXACTLY base + template with the variable replaced by the percent-encoded value (so that unquote_plus of that segment is the value).
+    The empty value is excluded: an empty path segment cannot be expressed in a URL and is_valid_path rejects it at generation time."""
+    import itertools
+    from types import SimpleNamespace
+    from urllib.parse import unquote_plus
+    from schemathesis.specs.openapi._hypothesis import quote_all
+    from schemathesis.transport.prepare import prepare_url
+
+    alphabet = ["a", ".", "/", "%", "+", " ", "é", "?", "#", "{", "}", "&", "=", ":", "@", ";", "\\", "\n"]
+    L = 2 if tier == "quick" else 3
+    values = [".", "..", "%2F", "%41", "a b", "{v}"] + ["".join(t) for k in range(1, L + 1) for t in itertools.product(alphabet, repeat=k)]
+    bases = ["http://h", "http://h/", "http://h/api", "http://h/api/", "http://h:8080/v1/"]
+    templates = ["/x/{v}", "/x/{v}/y", "/{v}"]
+    n = 0
+    viol = []
+    for base in bases:
+        for tpl in templates:
+            for v in values:
+                n += 1
+                enc = quote_all({"v": v})["v"]
+                case = SimpleNamespace(path=tpl, path_parameters={"v": enc}, operation=SimpleNamespace(base_url=None, schema=object()))
+                problem = None
+                try:
+                    url = prepare_url(case, base)
+                    want = base.rstrip("/") + tpl.replace("{v}", enc)
+                    if url != want:
+                        problem = f"url {url!r} != {want!r}"
+                    elif v not in (".", "..") and unquote_plus(enc) != v:
+                        problem = f"decoding {enc!r} gives {unquote_plus(enc)!r}"
+                    elif v in (".", "..") and "." in enc:
+                        problem = "dot segment not made inert"
+                except Exception as exc:  # noqa: BLE001
+                    problem = f"raised {type(exc).__name__}: {exc}"[:160]
+                if problem and len(viol) < 3:
+                    viol.append({"base": base, "template": tpl, "value": v, "problem": problem})
+    return {"name": "prepare_url_round_trip", "bound": f"{len(bases)} base URLs x {len(templates)} templates x values of length <= {L} over {len(alphabet)} characters", "evaluations": n,
+            "exhaustive": True, "violations": viol}
+
+
+BOUNDED = list(globals().get("BOUNDED", [])) + [prepare_url_round_trip]
